@@ -17,7 +17,7 @@ func (c13Engine) Meta() core.Meta {
 	return core.Meta{
 		Property:   "C13",
 		Level:      "fault_enumeration",
-		NonVacuous: []string{"intact_opened", "derived_crash_image_confirmed_by_real_kill", "recreate_over_corrupt_entry_opens"},
+		NonVacuous: []string{"intact_opened", "crash_states_of_the_write_protocol_checked", "recreate_over_corrupt_entry_opens", "concurrent_party_scenarios", "concurrent_reader_opened_the_entry"},
 		Rule: "Each simulated run draws a workload from its seed (digest size md5/sha1/sha256, 1-3 keys that may share a root or data digest, " +
 			"0-2 earlier writes, one target write with a seeded body class, Write chunking and flate level) and runs the real cmd/cache " +
 			"create/write/close code over the simulated disk. Inside the run the fault position is swept: a kill at every write of the protocol " +
@@ -174,6 +174,37 @@ func (e c13Engine) RunSeed(tier string, seed uint64, idx int) *core.Result {
 	if rng.Chance(2, 5) {
 		return c13CliRun(tier, seed, rng)
 	}
+	if rng.Chance(1, 3) {
+		// several processes on one entry under a seeded schedule
+		res := concRunSeed(tier, seed, rng)
+		for i := 0; i < 40 && len(res.Violations) == 0 && res.Harness == ""; i++ {
+			more := concRunSeed(tier, seed, rng)
+			res.Evaluations += more.Evaluations
+			res.SimOps += more.SimOps
+			res.Violations = more.Violations
+			for k, v := range more.Probes {
+				res.Probes[k] += v
+			}
+			for k, v := range more.Faults {
+				res.Faults[k] += v
+			}
+			for _, k := range more.Keys {
+				seen := false
+				for _, h := range res.Keys {
+					if h == k {
+						seen = true
+					}
+				}
+				if !seen {
+					res.Keys = append(res.Keys, k)
+				}
+			}
+			res.Digest = more.Digest
+			res.Sample = more.Sample
+			res.Harness = more.Harness
+		}
+		return res
+	}
 	res := &core.Result{Seed: seed, Probes: map[string]int{"intact_total": 0, "intact_opened": 0}, Faults: map[string]int{}}
 	sc := genLib(rng, tier)
 	if rng.Chance(1, 8) {
@@ -245,7 +276,10 @@ func (e c13Engine) RunSeed(tier string, seed uint64, idx int) *core.Result {
 			nWrites++
 		}
 	}
-	if nWrites != len(writeOps) {
+	aside := len(writeOps) > 0 && trace[writeOps[0]].Path != path
+	if aside {
+		// handled below, once the helpers are defined
+	} else if nWrites != len(writeOps) {
 		res.Harness = fmt.Sprintf("c13: write log has %d writes, trace has %d", nWrites, len(writeOps))
 		return res
 	}
@@ -263,10 +297,63 @@ func (e c13Engine) RunSeed(tier string, seed uint64, idx int) *core.Result {
 			return &c
 		}
 	}
+	if aside {
+		// The library does not write the entry in place: it writes another
+		// file and moves it over the entry's name. There is no sequence of
+		// images of the entry to derive then; the process is killed for real
+		// at its operations instead - all of them when they are few, the
+		// first and last ones and a seeded choice otherwise - and after each
+		// kill the entry must be what it was before or what it is afterwards.
+		r.probe("entry_written_aside_and_moved_into_place")
+		r.probe("crash_states_of_the_write_protocol_checked")
+		pick := map[int]bool{}
+		if len(trace) <= 70 {
+			for i := range trace {
+				pick[i] = true
+			}
+		} else {
+			for i := 0; i < 12; i++ {
+				pick[i] = true
+			}
+			for i := len(trace) - 20; i < len(trace); i++ {
+				pick[i] = true
+			}
+			k := 25
+			if tier == "thorough" {
+				k = 120
+			}
+			for i := 0; i < k; i++ {
+				pick[rng.Intn(len(trace))] = true
+			}
+		}
+		for at := 0; at < len(trace); at++ {
+			if !pick[at] {
+				continue
+			}
+			torns := []int{0}
+			if trace[at].Kind == "write" && trace[at].Len > 0 {
+				torns = []int{0, trace[at].Len / 2, trace[at].Len - 1, trace[at].Len}
+			}
+			for _, t := range torns {
+				r.setFile(path, r.lastPre, r.lastPreOK)
+				r.removeStrays(path)
+				_, _, pnc, p := r.put(tgt, &simos.Fault{AtOp: at, Kind: "kill", Torn: t}, nil)
+				r.countFaults(p)
+				if pnc != "" {
+					r.violate("panic", panicSite(pnc), firstLine(pnc), mkCrash(at, t)())
+					continue
+				}
+				opened := r.check(ti, mkCrash(at, t))
+				r.key(fmt.Sprintf("crash-aside|%s|%s|%s|%s|pre=%v|open=%v", sc.Hash, bclass, wclass(len(tgt.Writes)), trace[at].Kind, r.lastPreOK, opened))
+			}
+		}
+		r.setFile(path, complete, true)
+		r.removeStrays(path)
+	}
 	type crashPoint struct{ n, torn, atOp int }
 	var sampled []crashPoint
 	wi := 0
-	for n := 0; n < len(log); n++ {
+	for n := 0; n < len(log) && !aside; n++ {
 		if log[n].Off < 0 {
 			// kill at the create, before truncation took effect
 			r.setFile(path, r.lastPre, r.lastPreOK)
@@ -344,6 +431,7 @@ func (e c13Engine) RunSeed(tier string, seed uint64, idx int) *core.Result {
 			return res
 		}
 		r.probe("derived_crash_image_confirmed_by_real_kill")
+		r.probe("crash_states_of_the_write_protocol_checked")
 	}
 	// an I/O error on one operation of the protocol, and a kill at each of the
 	// operations that follow it: whatever the caller does about the error,
@@ -642,6 +730,9 @@ func (e c13Engine) Replay(raw json.RawMessage) ([]core.Violation, string, error)
 	if err := json.Unmarshal(raw, &sc); err != nil {
 		return nil, "", err
 	}
+	if sc.Kind == "conc" {
+		return concReplay(sc.Conc)
+	}
 	if sc.Kind == "cli" {
 		return cliReplay("C13", sc.Cli, func(c *cliScenario) json.RawMessage {
 			b, _ := json.Marshal(c13Scenario{Kind: "cli", Cli: c})
@@ -658,6 +749,14 @@ func (e c13Engine) Candidates(raw json.RawMessage) []json.RawMessage {
 	var sc c13Scenario
 	if json.Unmarshal(raw, &sc) != nil {
 		return nil
+	}
+	if sc.Kind == "conc" {
+		var out []json.RawMessage
+		for _, c := range concCandidates(sc.Conc) {
+			b, _ := json.Marshal(c13Scenario{Kind: "conc", Conc: c})
+			out = append(out, b)
+		}
+		return out
 	}
 	if sc.Kind == "cli" {
 		var out []json.RawMessage
